@@ -8,6 +8,19 @@ NOTE: We aim to make the computation of differential operaotrs more efficient
 import torch
 
 
+def _grad_or_zeros(output_sum, variable):
+    """Derivative of a scalar w.r.t. the variable, zeros if the scalar does not
+    depend on the variable (instead of the error autograd would raise)."""
+    if not output_sum.requires_grad:
+        return torch.zeros_like(variable)
+    derivative = torch.autograd.grad(
+        output_sum, variable, create_graph=True, allow_unused=True
+    )[0]
+    if derivative is None:
+        return torch.zeros_like(variable)
+    return derivative
+
+
 def laplacian(model_out, *derivative_variable, grad=None):
     """Computes the laplacian of a network with respect to the given variable
 
@@ -28,19 +41,19 @@ def laplacian(model_out, *derivative_variable, grad=None):
         A Tensor, where every row contains the value of the sum of the second
         derivatives (laplace) w.r.t the row of the input variable.
     """
-    laplacian = torch.zeros((*model_out.shape[:-1], 1), device=model_out.device)
+    laplacian = torch.zeros(
+        (*model_out.shape[:-1], 1), device=model_out.device, dtype=model_out.dtype
+    )
     for vari in derivative_variable:
         if grad is None or len(derivative_variable) > 1:
-            grad = torch.autograd.grad(model_out.sum(), vari, create_graph=True)[0]
+            grad = _grad_or_zeros(model_out.sum(), vari)
         # We have to check if the model is linear w.r.t. the variable, or else we get an err
         # when we compute the second derivative. If it is linear we can just return zeros
         if grad.grad_fn is None:
             continue
         for i in range(vari.shape[-1]):
-            D2u = torch.autograd.grad(
-                grad.narrow(-1, i, 1).sum(), vari, create_graph=True
-            )[0]
-            laplacian += D2u.narrow(-1, i, 1)
+            D2u = _grad_or_zeros(grad.narrow(-1, i, 1).sum(), vari)
+            laplacian = laplacian + D2u.narrow(-1, i, 1)
     return laplacian
 
 
@@ -61,9 +74,9 @@ def grad(model_out, *derivative_variable):
     """
     grad = []
     for vari in derivative_variable:
-        new_grad = torch.autograd.grad(model_out.sum(), vari, create_graph=True)[0]
+        new_grad = _grad_or_zeros(model_out.sum(), vari)
         grad.append(new_grad)
-    return torch.column_stack(grad)
+    return torch.cat(grad, dim=-1)
 
 
 """
@@ -157,9 +170,7 @@ def div(model_out, *derivative_variable):
     var_dim = 0
     for vari in derivative_variable:
         for i in range(vari.shape[-1]):
-            Du = torch.autograd.grad(
-                model_out.narrow(-1, var_dim + i, 1).sum(), vari, create_graph=True
-            )[0]
+            Du = _grad_or_zeros(model_out.narrow(-1, var_dim + i, 1).sum(), vari)
             divergence = divergence + Du.narrow(-1, i, 1)
         var_dim += i + 1
     return divergence
@@ -250,9 +261,7 @@ def jac(model_out, *derivative_variable):
     for i in range(model_out.shape[1]):
         Du_i = []
         for vari in derivative_variable:
-            Du_i.append(
-                torch.autograd.grad(model_out[:, i].sum(), vari, create_graph=True)[0]
-            )
+            Du_i.append(_grad_or_zeros(model_out[:, i].sum(), vari))
         Du_rows.append(torch.cat(Du_i, dim=1))
     Du = torch.stack(Du_rows, dim=1)
     return Du
@@ -284,7 +293,9 @@ def rot(model_out, *derivative_variable):
         ""
     """
     jacobian = jac(model_out, *derivative_variable)
-    rotation = torch.zeros((len(derivative_variable[0]), 3))
+    rotation = torch.zeros(
+        (len(derivative_variable[0]), 3), device=jacobian.device, dtype=jacobian.dtype
+    )
     rotation[:, 0] = jacobian[:, 2, 1] - jacobian[:, 1, 2]
     rotation[:, 1] = jacobian[:, 0, 2] - jacobian[:, 2, 0]
     rotation[:, 2] = jacobian[:, 1, 0] - jacobian[:, 0, 1]
@@ -313,7 +324,7 @@ def partial(model_out, *derivative_variables):
     for inp in derivative_variables:
         if du.grad_fn is None:
             return torch.zeros_like(inp)
-        du = torch.autograd.grad(du.sum(), inp, create_graph=True)[0]
+        du = _grad_or_zeros(du.sum(), inp)
     return du
 
 
@@ -378,7 +389,11 @@ def matrix_div(model_out, *derivative_variable):
         A Tensor of vectors of the form (batch, dim), containing the
         divegrence of the input.
     """
-    div_out = torch.zeros((len(model_out), model_out.shape[1]), device=model_out.device)
+    div_out = torch.zeros(
+        (len(model_out), model_out.shape[1]),
+        device=model_out.device,
+        dtype=model_out.dtype,
+    )
     for i in range(model_out.shape[1]):
         # compute divergence of matrix by computing the divergence
         # for each row
